@@ -771,8 +771,12 @@ func (db *DB) newTransaction(update, isManaged bool) *Txn {
 	txn := &Txn{
 		update: update,
 		db:     db,
-		count:  1,                       // One extra entry for BitFin.
-		size:   int64(len(txnKey) + 10), // Some buffer for the extra entry.
+		count:  1, // One extra entry for BitFin.
+		// Reserve the worst-case size of the end-of-transaction entry as sendToWriteCh will
+		// estimate it: key = txnKey + 8-byte version suffix, value = commit timestamp in
+		// decimal (at most 20 digits), plus 2 bytes of meta. A smaller reservation lets a
+		// transaction whose writes were all accepted fail with ErrTxnTooBig at Commit.
+		size: int64(len(txnKey) + 8 + 20 + 2),
 	}
 	if update {
 		if db.opt.DetectConflicts {
